@@ -22,7 +22,10 @@ TRUSTED = ["hand model of broadcast_and_match_nan / mean(skipna) / np.unique / n
            "(elementary calculus, DESIGN 3.4)"]
 ASSUMPTIONS = ["finite forecasts and observations (an infinite forecast makes fcst*0.0 NaN: see notes/C11.md)",
                "all forecast sources passed to murphy_thetas have the same shape (see notes/C11.md)",
-               "dyadic inputs so float + - * and comparisons are exact; means compared to 1e-9",
+               "dyadic inputs so float + - * and comparisons are exact; means compared to 1e-9 (2e-6 when an input is "
+               "stored as float32: the implementation then averages in float32)",
+               "stored dtype of fcst / obs / thetas is float64, float32, int64 or int32 (signed; no unsigned integers); an "
+               "integer-dtype array holds whole numbers and no NaN; the model and the Spec see the same numbers (exact in SV.Fl)",
                "equal coordinate label sets on fcst and obs (any stored order)"]
 MANIFEST = dict(
     level="proof",
@@ -47,15 +50,51 @@ MANIFEST = dict(
     design="6/C11")
 RULE = ("2-D (a x b) forecast/obs arrays of dyadic values from a small pool (40-60 % of obs copied from fcst), NaN per slot, "
         "thetas drawn from the fcst/obs values, obs +- a, midpoints and NaN, as list / 1-D / 2-D DataArray, obs coordinates "
-        "shuffled; distinct = canonical input hash; non-trivial = some finite output and at least one theta inside a data range")
+        "shuffled; ~55 % of cases store fcst / obs / sources / DataArray-thetas as int64, int32 or float32 (whole-number pool "
+        "for integer dtypes), plus a per-functional stratum of all-integer / all-float32 sources with left_limit_delta > 0 for "
+        "murphy_thetas; distinct = canonical input hash; non-trivial = some finite output and at least one theta inside a "
+        "data range")
 
 FUNCS = ["quantile", "huber", "expectile"]
 FINDINGS = os.environ.get("C11_FINDINGS", "") == "1"
 
 
 # ------------------------------------------------------------------------------------------ generators
-def _pool(rng):
+INT_DT = ["int64", "int32"]
+DTYPES = ["float64", "int64", "int32", "float32"]
+
+
+def _draw_dtypes(rng, n):
+    """stored dtypes of n arrays: all float64 (45 %), one other dtype for all of them (30 %), independent (25 %).
+    The numbers are the same whatever the storage, so every check below is dtype-blind on the expected side."""
+    r = rng.random()
+    if r < 0.45:
+        return ["float64"] * n
+    if r < 0.75:
+        return [rng.choice(["int64", "int32", "float32", "int64"])] * n
+    return [rng.choice(DTYPES) for _ in range(n)]
+
+
+def _is_int(dt):
+    return dt in INT_DT
+
+
+def _tol(*dtypes):
+    """float32 storage makes the implementation average in float32 (relative error ~1e-7 per operation)"""
+    if any(d == "float32" for d in dtypes):
+        return dict(rtol=2e-6, atol=1e-9)
+    return dict(rtol=1e-9, atol=1e-12)
+
+
+def case_tol(case):
+    return _tol(case.get("fdtype"), case.get("odtype"), case.get("tdtype"))
+
+
+def _pool(rng, whole=False):
     k = rng.randint(2, 5)
+    if whole:
+        # whole numbers (degrees, mm ...): the only values an integer-dtype array can hold
+        return [float(rng.randint(-8, 8)) for _ in range(k)]
     if rng.random() < 0.25:
         # fine dyadic values (10+ decimals, still exact in float64): a rounding or tolerance slipped into the
         # theta / kink computation shows up only on such data
@@ -66,9 +105,14 @@ def _pool(rng):
 def gen_case(rng, fn=None, nan_rate=None):
     fn = fn or rng.choice(FUNCS)
     na, nb = rng.choice([1, 1, 2, 3]), rng.choice([1, 2, 3, 4])
-    pool = _pool(rng)
+    fdt, odt = _draw_dtypes(rng, 2)
+    pool = _pool(rng, whole=_is_int(fdt) or _is_int(odt))
     nanf = rng.choice([0, 0, 0.15, 0.4]) if nan_rate is None else nan_rate
     nano = rng.choice([0, 0, 0.15, 0.4]) if nan_rate is None else nan_rate
+    if _is_int(fdt):
+        nanf = 0
+    if _is_int(odt):
+        nano = 0
     fc = [[rng.choice(pool) for _ in range(nb)] for _ in range(na)]
     ob = [[(fc[i][j] if rng.random() < 0.3 else rng.choice(pool)) for j in range(nb)] for i in range(na)]
     for i in range(na):
@@ -77,7 +121,7 @@ def gen_case(rng, fn=None, nan_rate=None):
                 fc[i][j] = core.NAN
             if rng.random() < nano:
                 ob[i][j] = core.NAN
-    if rng.random() < 0.04:
+    if rng.random() < 0.04 and not _is_int(odt):
         ob = [[core.NAN] * nb for _ in range(na)]
     alpha = rng.choice([0.25, 0.5, 0.75, 0.125, 0.875])
     a = rng.choice([0.25, 0.5, 1.0, 2.0, 0.75]) if fn == "huber" else rng.choice([None, None, 0.5])
@@ -87,8 +131,16 @@ def gen_case(rng, fn=None, nan_rate=None):
         cand += [v + a for v in vals] + [v - a for v in vals]
     nth = rng.randint(1, 5)
     kind = rng.choice(["list", "list", "da", "da2d"])
+    tdt = "float64" if kind == "list" else rng.choice(["float64", "float64", "float32", "int64", "int32"])
 
     def draw():
+        t = draw_any()
+        if _is_int(tdt):
+            # an integer-dtype theta array: whole numbers, no NaN
+            t = float(math.floor(rng.choice(cand) if math.isnan(t) else t))
+        return t
+
+    def draw_any():
         r = rng.random()
         if r < 0.5:
             return rng.choice(cand)
@@ -107,18 +159,29 @@ def gen_case(rng, fn=None, nan_rate=None):
     perm_b = list(range(nb)); rng.shuffle(perm_b)
     return dict(fn=fn, alpha=alpha, a=a, fcst=fc, obs=ob, thetas=thetas, theta_kind=kind,
                 perm_a=perm_a, perm_b=perm_b, obs_transposed=rng.random() < 0.3,
-                reduce=rng.choice(["everything", "a", "b"]), upper=rng.random() < 0.2)
+                reduce=rng.choice(["everything", "a", "b"]), upper=rng.random() < 0.2,
+                fdtype=fdt, odtype=odt, tdtype=tdt)
 
 
 def fresh(s):
     return "".join(list(s))
 
 
+def _stored(values, dtype):
+    """the numbers `values` stored as `dtype` (None = float64).  Integer storage is only ever asked for whole, non-NaN
+    numbers (generator invariant); anything else stays float64 so that a hand-edited replay cannot cast NaN to int."""
+    arr = np.array(values, dtype=float)
+    dtype = dtype or "float64"
+    if _is_int(dtype) and not (np.all(np.isfinite(arr)) and np.all(arr == np.floor(arr))):
+        return arr
+    return arr.astype(dtype)
+
+
 def build_inputs(case):
     na, nb = len(case["fcst"]), len(case["fcst"][0])
-    f = xr.DataArray(np.array(case["fcst"], dtype=float), dims=[fresh("a"), fresh("b")],
+    f = xr.DataArray(_stored(case["fcst"], case.get("fdtype")), dims=[fresh("a"), fresh("b")],
                      coords={"a": list(range(na)), "b": [10 + j for j in range(nb)]})
-    o = xr.DataArray(np.array(case["obs"], dtype=float), dims=["a", "b"],
+    o = xr.DataArray(_stored(case["obs"], case.get("odtype")), dims=["a", "b"],
                      coords={"a": list(range(na)), "b": [10 + j for j in range(nb)]})
     # same labelled values, different stored order
     o = o.isel(a=case["perm_a"], b=case["perm_b"])
@@ -128,9 +191,9 @@ def build_inputs(case):
     if case["theta_kind"] == "list":
         tarr = [float(x) for x in th]
     elif case["theta_kind"] == "da":
-        tarr = xr.DataArray(np.array(th, dtype=float), dims=["theta"], coords={"theta": list(range(len(th)))})
+        tarr = xr.DataArray(_stored(th, case.get("tdtype")), dims=["theta"], coords={"theta": list(range(len(th)))})
     else:
-        tarr = xr.DataArray(np.array(th, dtype=float), dims=["a", "theta"],
+        tarr = xr.DataArray(_stored(th, case.get("tdtype")), dims=["a", "theta"],
                             coords={"a": list(range(na)), "theta": list(range(len(th[0])))})
     return f, o, tarr
 
@@ -149,7 +212,7 @@ def call_murphy(case, preserve, decomposition=True):
     with np.errstate(all="ignore"):
         r = murphy_score(f, o, tarr, **kw)
     # results are compared by coordinate label, not by stored position
-    return r.sortby([d for d in ("a", "b") if d in r.dims])
+    return r.sortby([d for d in ("a", "b") if d in r.dims and d in r.coords])
 
 
 def rows_thetas(case):
@@ -183,65 +246,103 @@ def ops_for(case, op):
 VARS = [("total", 0), ("underforecast", 1), ("overforecast", 2)]
 
 
+class _Unexpected(Exception):
+    """a result of the implementation that does not have the structure the property promises; args = failure tuple"""
+
+
+def _vals(ds, name, dims, shape, tags):
+    """values of variable `name` as a float array with exactly the dims `dims` (in that order) and shape `shape`;
+    anything else is a finding about the implementation (raised as _Unexpected), never a harness crash"""
+    site = "murphy_score." + name
+    if name not in getattr(ds, "data_vars", {}):
+        raise _Unexpected(site, "missing-variable", sorted(map(str, getattr(ds, "data_vars", {}))), name, tags)
+    da = ds[name]
+    if sorted(map(str, da.dims)) != sorted(dims):
+        raise _Unexpected(site, "result-dims", sorted(map(str, da.dims)), sorted(dims), tags)
+    v = np.asarray(da.transpose(*dims).values)
+    if v.shape != tuple(shape):
+        raise _Unexpected(site, "result-shape", list(v.shape), list(shape), tags)
+    try:
+        return v.astype(float)
+    except (TypeError, ValueError):
+        raise _Unexpected(site, "result-dtype", str(v.dtype), "numeric", tags) from None
+
+
 def compare_case(case, res, kind, source):
-    """implementation vs driver results `res` (as produced for ops_for(case, ...)); returns failure tuples"""
+    """implementation vs driver results `res` (as produced for ops_for(case, ...)); returns failure tuples.
+    Never raises because of what the implementation returned: exceptions and results of unexpected dims / shape /
+    variables are failures of the case."""
     fails = []
-    na, nb = len(case["fcst"]), len(case["fcst"][0])
-    nth = len(rows_thetas(case)[0])
     try:
         r_all = call_murphy(case, "all")
         r_red = call_murphy(case, case["reduce"])
         r_tot = call_murphy(case, "all", decomposition=False)
     except Exception as ex:  # noqa: BLE001
         return [("murphy_score", "exception", core.exc_class(ex) + ": " + str(ex)[:200], "a Dataset", {})]
-    if set(r_tot.data_vars) != {"total"} or set(r_all.data_vars) != {"total", "underforecast", "overforecast"}:
-        fails.append(("murphy_score", "variables", sorted(r_all.data_vars), ["overforecast", "total", "underforecast"], {}))
-        return fails
-    tags = {"fn": case["fn"], "source": source}
+    tags = {"fn": case["fn"], "source": source, "dtypes": "/".join(str(case.get(k) or "float64")
+                                                                    for k in ("fdtype", "odtype", "tdtype"))}
+    try:
+        _compare_values(case, res, r_all, r_red, r_tot, tags, fails)
+    except _Unexpected as u:
+        fails.append(u.args)
+    except Exception as ex:  # noqa: BLE001
+        fails.append(("murphy_score", "unexpected-result-structure", core.exc_class(ex) + ": " + str(ex)[:200],
+                      "Dataset with theta + preserved dims", tags))
+    return fails
+
+
+def _compare_values(case, res, r_all, r_red, r_tot, tags, fails):
+    na, nb = len(case["fcst"]), len(case["fcst"][0])
+    nth = len(rows_thetas(case)[0])
+    tol = case_tol(case)
+    dv_tot = set(map(str, getattr(r_tot, "data_vars", {})))
+    dv_all = set(map(str, getattr(r_all, "data_vars", {})))
+    if dv_tot != {"total"} or dv_all != {"total", "underforecast", "overforecast"}:
+        fails.append(("murphy_score", "variables", sorted(dv_all), ["overforecast", "total", "underforecast"], {}))
+        return
+    full = {}
     for name, k in VARS:
-        got = r_all[name].transpose("theta", "a", "b").values
+        got = full[name] = _vals(r_all, name, ("theta", "a", "b"), (nth, na, nb), tags)
         for t in range(nth):
             for i in range(na):
                 for j in range(nb):
                     exp = res[i]["cells"][t][j][k]
-                    if not core.close(got[t, i, j], exp):
+                    if not core.close(got[t, i, j], exp, **tol):
                         fails.append(("murphy_score." + name, "cell-value",
                                       float(got[t, i, j]), exp, dict(tags, theta_index=t, a=i, b=j)))
         if name == "total":
-            g2 = r_tot["total"].transpose("theta", "a", "b").values
+            g2 = _vals(r_tot, "total", ("theta", "a", "b"), (nth, na, nb), tags)
             if not all(core.close_ff(x, y, 0, 0) for x, y in zip(g2.ravel(), got.ravel())):
                 fails.append(("murphy_score.total", "decomposition-flag-changes-total", g2.tolist(), got.tolist(), tags))
     red = case["reduce"]
     if red == "a":
         for name, k in VARS:
-            got = r_red[name].transpose("theta", "a").values
+            got = _vals(r_red, name, ("theta", "a"), (nth, na), dict(tags, reduce="b"))
             for t in range(nth):
                 for i in range(na):
-                    if not core.close(got[t, i], res[i]["mean"][t][k]):
+                    if not core.close(got[t, i], res[i]["mean"][t][k], **tol):
                         fails.append(("murphy_score." + name, "mean-value", float(got[t, i]), res[i]["mean"][t][k],
                                       dict(tags, theta_index=t, a=i, reduce="b")))
     elif case["theta_kind"] != "da2d":
         if red == "b":
             for name, k in VARS:
-                got = r_red[name].transpose("theta", "b").values
+                got = _vals(r_red, name, ("theta", "b"), (nth, nb), dict(tags, reduce="a"))
                 for t in range(nth):
                     for j in range(nb):
-                        if not core.close(got[t, j], res[na + j]["mean"][t][k]):
+                        if not core.close(got[t, j], res[na + j]["mean"][t][k], **tol):
                             fails.append(("murphy_score." + name, "mean-value", float(got[t, j]),
                                           res[na + j]["mean"][t][k], dict(tags, theta_index=t, b=j, reduce="a")))
         else:
             for name, k in VARS:
-                got = r_red[name].values
+                got = _vals(r_red, name, ("theta",), (nth,), dict(tags, reduce="everything"))
                 for t in range(nth):
-                    if not core.close(got[t], res[na + nb]["mean"][t][k]):
+                    if not core.close(got[t], res[na + nb]["mean"][t][k], **tol):
                         fails.append(("murphy_score." + name, "mean-value", float(got[t]), res[na + nb]["mean"][t][k],
                                       dict(tags, theta_index=t, reduce="everything")))
     # relation on the implementation alone: total = under + over, wherever defined
-    tot = r_all["total"].transpose("theta", "a", "b").values
-    un = r_all["underforecast"].transpose("theta", "a", "b").values
-    ov = r_all["overforecast"].transpose("theta", "a", "b").values
+    tot, un, ov = full["total"], full["underforecast"], full["overforecast"]
     for idx in np.ndindex(tot.shape):
-        if not core.close_ff(tot[idx], un[idx] + ov[idx]):
+        if not core.close_ff(tot[idx], un[idx] + ov[idx], **tol):
             fails.append(("murphy_score.total", "total!=under+over", float(tot[idx]), float(un[idx] + ov[idx]),
                           dict(tags, index=list(idx))))
             break
@@ -249,7 +350,6 @@ def compare_case(case, res, kind, source):
             fails.append(("murphy_score", "both-penalties-nonzero", [float(un[idx]), float(ov[idx])], "one of them 0",
                           dict(tags, index=list(idx))))
             break
-    return fails
 
 
 def nontrivial(case):
@@ -276,6 +376,10 @@ def tag_case(ctx, case):
         ctx.tag("fcst==obs")
     if len(fin) == 1:
         ctx.tag("single-case")
+    ctx.tag("dtype:fcst=" + str(case.get("fdtype") or "float64"))
+    ctx.tag("dtype:obs=" + str(case.get("odtype") or "float64"))
+    if case["theta_kind"] != "list":
+        ctx.tag("dtype:thetas=" + str(case.get("tdtype") or "float64"))
 
 
 def run_value_batch(ctx, batch, kind, op, n, source, fn=None):
@@ -295,27 +399,46 @@ def run_value_batch(ctx, batch, kind, op, n, source, fn=None):
 
 
 # ------------------------------------------------------------------------------------------ thetas
-def gen_thetas_case(rng, fn=None):
+def gen_thetas_case(rng, fn=None, dclass=None):
+    """dclass: None (any storage), "int" (every source an integer dtype), "float32" (every source float32)"""
     fn = fn or rng.choice(FUNCS)
     ns = rng.choice([1, 2, 2, 3])
     shape = (rng.choice([1, 2, 3]), rng.choice([1, 2, 3]))
-    pool = _pool(rng)
+    if dclass == "int":
+        sdt = [rng.choice(INT_DT) for _ in range(ns)]
+    elif dclass == "float32":
+        sdt = ["float32"] * ns
+    else:
+        sdt = _draw_dtypes(rng, ns)
+    odt = rng.choice(["float64", "float64"] + DTYPES)
+    pool = _pool(rng, whole=any(_is_int(d) for d in sdt + [odt]))
     nanr = rng.choice([0, 0, 0.2])
 
-    def arr():
-        return [[(core.NAN if rng.random() < nanr else rng.choice(pool)) for _ in range(shape[1])] for _ in range(shape[0])]
-    srcs = [arr() for _ in range(ns)]
-    obs = arr()
+    def arr(dt):
+        r = 0 if _is_int(dt) else nanr
+        return [[(core.NAN if rng.random() < r else rng.choice(pool)) for _ in range(shape[1])] for _ in range(shape[0])]
+    srcs = [arr(dt) for dt in sdt]
+    obs = arr(odt)
     a = rng.choice([0.25, 0.5, 1.0, 2.0]) if fn == "huber" else None
     delta = rng.choice([None, 0, 0.125, 0.0625, 0.25, 1.0])
+    if dclass is not None and rng.random() < 0.7:
+        delta = rng.choice([0.125, 0.0625, 0.25, 1.0, 0.5])
     alpha = rng.choice([0.25, 0.5, 0.75, 0.125])
-    return dict(fn=fn, sources=srcs, obs=obs, a=a, delta=delta, alpha=alpha)
+    return dict(fn=fn, sources=srcs, obs=obs, a=a, delta=delta, alpha=alpha, sdtypes=sdt, odtype=odt)
+
+
+def _sdtype(tc, k):
+    return (tc.get("sdtypes") or ["float64"] * len(tc["sources"]))[k]
+
+
+def thetas_tol(tc):
+    return _tol(tc.get("odtype"), *(tc.get("sdtypes") or []))
 
 
 def call_thetas(tc):
     from scores.continuous import murphy_thetas
-    fs = [xr.DataArray(np.array(s, dtype=float), dims=["a", "b"]) for s in tc["sources"]]
-    o = xr.DataArray(np.array(tc["obs"], dtype=float), dims=["a", "b"])
+    fs = [xr.DataArray(_stored(s, _sdtype(tc, k)), dims=["a", "b"]) for k, s in enumerate(tc["sources"])]
+    o = xr.DataArray(_stored(tc["obs"], tc.get("odtype")), dims=["a", "b"])
     return [float(x) for x in murphy_thetas(fs, o, tc["fn"], huber_a=tc["a"], left_limit_delta=tc["delta"])]
 
 
@@ -343,53 +466,76 @@ def kink_spec(tc):
 def curve(tc, src, pts):
     """mean Murphy score of source `src` at the points `pts` (implementation)"""
     from scores.continuous import murphy_score
-    f = xr.DataArray(np.array(tc["sources"][src], dtype=float), dims=["a", "b"])
-    o = xr.DataArray(np.array(tc["obs"], dtype=float), dims=["a", "b"])
+    f = xr.DataArray(_stored(tc["sources"][src], _sdtype(tc, src)), dims=["a", "b"])
+    o = xr.DataArray(_stored(tc["obs"], tc.get("odtype")), dims=["a", "b"])
     with np.errstate(all="ignore"):
         r = murphy_score(f, o, [float(p) for p in pts], functional=tc["fn"], alpha=tc["alpha"], huber_a=tc["a"])
-    return [float(x) for x in r["total"].values]
+    v = np.asarray(r["total"].values)
+    if v.shape != (len(pts),):
+        raise _Unexpected("murphy_score.total", "result-shape", list(v.shape), [len(pts)], {"fn": tc["fn"], "source": src})
+    return [float(x) for x in v]
 
 
 def thetas_property(tc, loss_by_src):
     """completeness of the returned thetas, on the implementation: between consecutive thetas each source's curve is
-    constant (quantile) / affine (others), it vanishes outside, and the midpoint sum over the cells is the mean loss"""
+    constant (quantile) / affine (others), it vanishes outside, the midpoint sum over the cells is the mean loss, and
+    (left_limit_delta > 0) every jump of the expectile / Huber curve is preceded by a theta at most delta below it, so
+    linear interpolation between the thetas is the curve outside those gaps"""
     fails = []
+    dt = "/".join(tc.get("sdtypes") or ["float64"]) + "|" + str(tc.get("odtype") or "float64")
     try:
         th = call_thetas(tc)
     except Exception as ex:  # noqa: BLE001
-        return [("murphy_thetas", "exception", core.exc_class(ex) + ": " + str(ex)[:200], "a list", {})]
+        return [("murphy_thetas", "exception", core.exc_class(ex) + ": " + str(ex)[:200], "a list", {"dtypes": dt})]
     spec = kink_spec(tc)
     if th != spec:
-        fails.append(("murphy_thetas", "theta-set", th, spec, {"fn": tc["fn"]}))
+        fails.append(("murphy_thetas", "theta-set", th, spec, {"fn": tc["fn"], "dtypes": dt}))
     if len(th) == 0:
         return fails
+    tol = thetas_tol(tc)
+    d = tc.get("delta") or 0
     for s in range(len(tc["sources"])):
         pts = []
         for lo, hi in zip(th, th[1:]):
             w = hi - lo
             pts += [lo, lo + w / 4, lo + w / 2, lo + 3 * w / 4]
         pts += [th[-1], th[-1] + 1, th[0] - 1]
-        c = curve(tc, s, pts)
+        tags = {"fn": tc["fn"], "source": s, "dtypes": dt}
+        try:
+            c = curve(tc, s, pts)
+        except _Unexpected as u:
+            fails.append(u.args)
+            continue
+        except Exception as ex:  # noqa: BLE001
+            fails.append(("murphy_score", "exception", core.exc_class(ex) + ": " + str(ex)[:200], "a Dataset", tags))
+            continue
         if all(math.isnan(x) for x in c):
             continue
-        tags = {"fn": tc["fn"], "source": s}
-        if not (core.close_ff(c[-1], 0) and core.close_ff(c[-2], 0) and core.close_ff(c[-3], 0)):
+        if not (core.close_ff(c[-1], 0, **tol) and core.close_ff(c[-2], 0, **tol) and core.close_ff(c[-3], 0, **tol)):
             fails.append(("murphy_score", "nonzero-outside-data-range", c[-3:], [0, 0, 0], tags))
         integral = 0.0
         for k, (lo, hi) in enumerate(zip(th, th[1:])):
             p0, p1, p2, p3 = c[4 * k: 4 * k + 4]
             if tc["fn"] == "quantile":
-                ok = core.close_ff(p0, p1) and core.close_ff(p0, p2) and core.close_ff(p0, p3)
+                ok = core.close_ff(p0, p1, **tol) and core.close_ff(p0, p2, **tol) and core.close_ff(p0, p3, **tol)
             else:
-                ok = core.close_ff(p2 - p0, 2 * (p1 - p0)) and core.close_ff(p3 - p0, 3 * (p1 - p0))
+                ok = core.close_ff(p2 - p0, 2 * (p1 - p0), **tol) and core.close_ff(p3 - p0, 3 * (p1 - p0), **tol)
             if not ok:
                 fails.append(("murphy_thetas", "kink-inside-cell", [p0, p1, p2, p3],
                               "constant" if tc["fn"] == "quantile" else "affine", dict(tags, cell=[lo, hi])))
                 break
+            if tc["fn"] != "quantile" and d > 0 and hi - lo > d:
+                # a cell wider than delta must end without a jump: the curve continued affinely to `hi` is the value
+                # there (a jump sits at every forecast value; its left-limit theta f - delta makes the cell narrow)
+                c_hi = c[4 * (k + 1)]
+                if not core.close_ff(p0 + 4 * (p1 - p0), c_hi, **tol):
+                    fails.append(("murphy_thetas", "jump-without-left-limit", [p0 + 4 * (p1 - p0), c_hi],
+                                  "a theta in [hi - delta, hi)", dict(tags, cell=[lo, hi], delta=d)))
+                    break
             integral += (hi - lo) * p2
         else:
             exp = loss_by_src[s]
-            if not core.close(integral, exp):
+            if not core.close(integral, exp, **tol):
                 fails.append(("murphy_score", "integral!=loss", integral, exp, tags))
     return fails
 
@@ -442,15 +588,17 @@ def correspondence(ctx):
     run_value_batch(ctx, "impl-vs-model:murphy_score", "correspondence", "c11.model", ctx.n(120, 2500), "model")
     # murphy_thetas vs the hand model
     tcs = [gen_thetas_case(ctx.rng) for _ in range(ctx.n(150, 3000))]
+    tcs += strata_thetas_cases(ctx, ctx.n(4, 60))
     res = core.run_driver("C11", [thetas_op(t) for t in tcs])
     for tc, r in zip(tcs, res):
         ctx.case("impl-vs-model:murphy_thetas", tc)
         ctx.tag("thetas:" + tc["fn"] + f":sources={len(tc['sources'])}")
+        tag_thetas_dtypes(ctx, tc)
         try:
             th = call_thetas(tc)
         except Exception as ex:  # noqa: BLE001
             ctx.fail("impl-vs-model:murphy_thetas", "correspondence", "murphy_thetas", "exception", dict(tc, check="thetas"),
-                     observed=core.exc_class(ex), expected=r)
+                     observed=core.exc_class(ex) + ": " + str(ex)[:200], expected=r)
             continue
         exp = [float(core.parse_fl(x)) for x in r]
         if th != exp:
@@ -472,6 +620,20 @@ def correspondence(ctx):
     inf_stream(ctx)
 
 
+def strata_thetas_cases(ctx, per):
+    """`per` murphy_thetas cases for every functional x {all sources integer dtype, all sources float32}: whole-number
+    data stored as integers (degrees, mm) and single-precision data, mostly with left_limit_delta > 0"""
+    return [gen_thetas_case(ctx.rng, fn=fn, dclass=dc) for fn in FUNCS for dc in ("int", "float32") for _ in range(per)]
+
+
+def tag_thetas_dtypes(ctx, tc):
+    sd = tc.get("sdtypes") or ["float64"]
+    cls = ("all-int" if all(_is_int(x) for x in sd) else "all-float32" if all(x == "float32" for x in sd)
+           else "all-float64" if all(x == "float64" for x in sd) else "mixed")
+    ctx.tag("thetas-dtype:sources=" + cls + ",obs=" + str(tc.get("odtype") or "float64")
+            + (",delta>0" if (tc.get("delta") or 0) > 0 else ",delta=0"))
+
+
 def inf_stream(ctx):
     from scores.continuous import murphy_score
     rng = ctx.rng
@@ -488,11 +650,21 @@ def inf_stream(ctx):
     res = core.run_driver("C11", ops)
     for c, r in zip(cs, res):
         ctx.case("impl-vs-model:infinite-values", c, nontrivial=False)
-        with np.errstate(all="ignore"):
-            out = murphy_score(xr.DataArray([c["f"]], dims=["a"]), xr.DataArray([c["o"]], dims=["a"]), [c["theta"]],
-                               functional=c["fn"], alpha=0.25, huber_a=c["a"], decomposition=True, preserve_dims="all")
-        got = [float(out[v].values.ravel()[0]) for v, _ in VARS]
         exp = r["cells"][0][0]
+        try:
+            with np.errstate(all="ignore"):
+                out = murphy_score(xr.DataArray([c["f"]], dims=["a"]), xr.DataArray([c["o"]], dims=["a"]), [c["theta"]],
+                                   functional=c["fn"], alpha=0.25, huber_a=c["a"], decomposition=True, preserve_dims="all")
+            got = [float(_vals(out, v, ("theta", "a"), (1, 1), {})[0, 0]) for v, _ in VARS]
+        except _Unexpected as u:
+            ctx.fail("impl-vs-model:infinite-values", "correspondence", u.args[0], u.args[1], dict(c, check="inf"),
+                     observed=u.args[2], expected=u.args[3], tags={"fn": c["fn"], "domain": "infinite"})
+            continue
+        except Exception as ex:  # noqa: BLE001
+            ctx.fail("impl-vs-model:infinite-values", "correspondence", "murphy_score", "exception", dict(c, check="inf"),
+                     observed=core.exc_class(ex) + ": " + str(ex)[:200], expected=exp,
+                     tags={"fn": c["fn"], "domain": "infinite"})
+            continue
         if not all(core.close(g, e) for g, e in zip(got, exp)):
             ctx.fail("impl-vs-model:infinite-values", "correspondence", "murphy_score", "cell-value", dict(c, check="inf"),
                      observed=got, expected=exp, tags={"fn": c["fn"], "domain": "infinite"})
@@ -510,6 +682,7 @@ def oracle(ctx, boost):
         for fn in FUNCS:
             run_value_batch(ctx, "impl-vs-spec:murphy_score", "property", "c11.spec", 150, "spec", fn=fn)
     tcs = [gen_thetas_case(ctx.rng) for _ in range(ctx.n(60, 1200) * m)]
+    tcs += strata_thetas_cases(ctx, ctx.n(5, 60) * m)
     ops, spans = [], []
     for tc in tcs:
         o = loss_ops(tc)
@@ -519,12 +692,13 @@ def oracle(ctx, boost):
     for tc, (lo, hi) in zip(tcs, spans):
         ctx.case("thetas-complete+integral", tc)
         ctx.tag("thetas-oracle:" + tc["fn"])
+        tag_thetas_dtypes(ctx, tc)
         losses = [r["loss"] for r in res[lo:hi]]
         for site, sig, obs_, exp, tags in thetas_property(tc, losses):
             ctx.fail("thetas-complete+integral", "property", site, sig, dict(tc, check="thetas-property"),
                      observed=obs_, expected=exp, tags=tags,
                      theorem={"kink-inside-cell": "kinks_subset_thetas", "integral!=loss": "integral_eq_loss",
-                              "theta-set": "kinks_subset_thetas"}.get(sig))
+                              "theta-set": "kinks_subset_thetas", "jump-without-left-limit": "kinks_subset_thetas"}.get(sig))
     mixed_shape_probe(ctx)
 
 
@@ -568,7 +742,10 @@ def replay(ctx, payload):
         res = core.run_driver("C11", loss_ops(case))
         return bool(thetas_property(case, [r["loss"] for r in res]))
     if chk == "thetas":
-        return call_thetas(case) != kink_spec(case)
+        try:
+            return call_thetas(case) != kink_spec(case)
+        except Exception:  # noqa: BLE001
+            return True
     if chk == "guard":
         r1, r2 = bad_outcomes(case)
         res = core.run_driver("C11", bad_ops(case))
